@@ -81,7 +81,108 @@ class StaticQuantile(Unit):
             ctx.ensure("C15 quantile is non-decreasing in q", z3.Implies(q <= q2, v <= v2))
 
 
-UNITS = [StaticSample(), StaticQuantile(), DistAlgebra(), NodeStep()]
+GMM = "rex/gmm_estimator.py"
+
+
+class _Data:
+    """contract-level value: a 1-D delay data set; only its mean and (population) standard deviation are observed"""
+    MEAN, STD, C = z3.Real("data.mean"), z3.Real("data.std"), z3.Real("data.c")
+    CONST = z3.Bool("data.is_constant")      # ghost: every entry equals data.c
+
+    def pyvc_getattr(self, ex, attr):
+        if attr == "astype":
+            return lambda ex_, d=None: self       # float32 view: same statistics (machine arithmetic treated as mathematical)
+        if attr == "mean":
+            return lambda ex_, dtype=None: _Data.MEAN
+        if attr == "std":
+            return lambda ex_: _Data.STD
+        raise Unsupported(f"data attribute {attr}")
+
+    def pyvc_binop(self, ex, op, other, reflected):
+        return _Derived()
+
+
+class _Derived:
+    """data-derived array (normalised data): not observed by any clause"""
+    def pyvc_binop(self, ex, op, other, reflected):
+        return self
+
+
+def data_world(ex):
+    ex.assumptions_used.add("statistics of a data set: std >= 0; constant data (all entries c) has mean c and std 0; astype(float32) keeps both (mathematical arithmetic)")
+    ex.assume(z3.And(_Data.STD >= 0, z3.Implies(_Data.CONST, z3.And(_Data.STD == 0, _Data.MEAN == _Data.C))))
+    for ns in ("numpy", "jax.numpy"):       # rex/gmm_estimator.py uses jax.numpy under the name np
+        np_ = ex.lib.ns[ns]
+        o_mean, o_std = np_.entries.get("mean"), np_.entries.get("std")
+        np_.entries["mean"] = (lambda om: lambda ex_, x, **k: _Data.MEAN if isinstance(x, _Data) else om(ex_, x, **k))(o_mean)
+        np_.entries["std"] = (lambda os_: lambda ex_, x, **k: _Data.STD if isinstance(x, _Data) else os_(ex_, x, **k))(o_std)
+    return _Data()
+
+
+class GmmInit(Unit):
+    """the delay estimator recognises constant data (whatever its value, zero included) and remembers the data's own mean and spread for rescaling"""
+    name = "GMMEstimator.__init__"
+    target = GMM + "::GMMEstimator.__init__"
+    props = ("C15",)
+
+    def opts(self, cfg):
+        return {"no_ifexp_merge": True}
+
+    def run(self, ctx):
+        ex = ctx.ex
+        data = data_world(ex)
+        est = Rec("GMMEstimator", {}, module=GMM)
+        thr = z3.Real("threshold")
+        ctx.require(thr > 0)
+        ctx.call(self_obj=est, args=[data], kwargs=dict(threshold=thr))
+        ctx.ensure("C15 constant data (every entry the same value, zero included) is recognised as deterministic for any positive threshold",
+                   z3.Implies(_Data.CONST, toz(ex.truth(est.f["is_deterministic"]))))
+        ctx.ensure("C15 the estimator keeps the data's own mean and standard deviation (the units fitted components are mapped back to)", z3.And(toz(est.f["_mean"]) == _Data.MEAN, toz(est.f["_std"]) == _Data.STD))
+
+
+class GmmGetDistDeterministic(Unit):
+    name = "GMMEstimator.get_dist (constant data)"
+    target = GMM + "::GMMEstimator.get_dist"
+    props = ("C15",)
+
+    def run(self, ctx):
+        ex = ctx.ex
+        data = data_world(ex)
+        ex.lib.ns["distrax"].entries["Deterministic"] = lambda ex_, loc=None: Rec("Deterministic", dict(loc=loc), module=None, frozen=True)
+        est = Rec("GMMEstimator", dict(is_deterministic=True, data=data, final_state_norm=None), module=GMM)
+        ret = ctx.call(self_obj=est)
+        ok = isinstance(ret, Rec) and ret.cls == "StaticDist" and isinstance(ret.f["dist"], Rec) and ret.f["dist"].cls == "Deterministic"
+        ctx.ensure("C15 deterministic data gives a StaticDist over a Deterministic distribution (no fit needed)", z3.BoolVal(ok))
+        if ok:
+            ctx.ensure("C15 ... located at the data's value: in the units of the data", z3.And(toz(ret.f["dist"].f["loc"]) == _Data.MEAN, z3.Implies(_Data.CONST, toz(ret.f["dist"].f["loc"]) == _Data.C)))
+
+
+class GmmRescale(Unit):
+    """fitted (normalised) components are mapped back to the units of the data: mu * std + mean, scale * std (positive), weights untouched"""
+    name = "GMMEstimator._rescale"
+    target = GMM + "::GMMEstimator._rescale"
+    props = ("C15",)
+
+    def run(self, ctx):
+        ex = ctx.ex
+        mean, std = z3.Real("est.mean"), z3.Real("est.std")
+        ctx.require(std > 0)
+        est = Rec("GMMEstimator", dict(_mean=mean, _std=std), module=GMM)
+        lw, lc, mu, ls = z3.Real("log_w"), z3.Real("log_conc"), z3.Real("mu_norm"), z3.Real("log_scale_norm")
+        ret = ctx.call(self_obj=est, args=[(lw, lc, mu, ls)])
+        ctx.ensure("returns (log weights, log concentration, means, log scales)", z3.BoolVal(isinstance(ret, tuple) and len(ret) == 4))
+        if not (isinstance(ret, tuple) and len(ret) == 4):
+            return
+        EXP, LOG = ex.lib.ns["numpy"].entries["exp"], ex.lib.ns["numpy"].entries["log"]
+        ex.assumptions_used.add("exp(a + b) = exp(a) * exp(b), used at the one instance a = log_scale, b = log(std)")
+        ex.assume(toz(EXP(ex, ls + toz(LOG(ex, std)))) == toz(EXP(ex, ls)) * toz(EXP(ex, LOG(ex, std))))
+        ctx.ensure("C15 weights (and concentration) are not touched by rescaling, so they still sum to one", z3.And(toz(ret[0]) == lw, toz(ret[1]) == lc))
+        ctx.ensure("C15 component means are mapped back to the units of the data: mu * std + mean", toz(ret[2]) == mu * std + mean)
+        ctx.ensure("C15 component scales are mapped back to the units of the data and stay positive: exp(log_scale') = exp(log_scale) * std > 0",
+                   z3.And(toz(EXP(ex, ret[3])) == toz(EXP(ex, ls)) * std, toz(EXP(ex, ret[3])) > 0))
+
+
+UNITS = [StaticSample(), StaticQuantile(), DistAlgebra(), NodeStep(), GmmInit(), GmmGetDistDeterministic(), GmmRescale()]
 
 
 def check(tier, seed):
